@@ -54,6 +54,12 @@ impl Expr {
         self.nodes.push(node);
     }
 
+    /// Appends all the nodes of `other`
+    #[inline]
+    pub fn extend(&mut self, other: &Expr) {
+        self.nodes.extend_from_slice(&other.nodes);
+    }
+
     pub fn evaluate(
         &self,
         symtab: &Symtab,
